@@ -107,7 +107,9 @@ RULE = ('random part: data over {a,b,CR,LF,-} (uniform or delimiter-sparse) of l
         '0..9 bytes, all 1-byte, one piece, or 64..1000-byte pieces, empty chunks anywhere, a tenth yielding to the event loop; histories of 1..10 (a fifth: 11..30) operations over '
         'read/peek/read_until/pipe_until/pipe/readline/readlines/exhaust/readall/iterate + delimit/pop up to two levels deep (a dropped child is first exhausted in 60% of the cases); '
         'delimiters from {LF, -, CRLF, --, CRLF--, a-a, ab} or cut out of the data around the cursor / the end of the buffered bytes (length 1..min(chunk,5)); sizes from a fixed list or '
-        'ending near the buffer border; a quarter of the sync cases additionally address parents of a live child and use invalid delimiters (model comparison only from there on). '
+        'ending near the buffer border (the number of buffered bytes is read from the private _buffer_len/_buffer_pos when present - for aiming generated inputs only, never compared), '
+        'plus two targeted patterns: read-leaving-0..3-bytes then read_until with a delimiter whose head is already consumed / that extends beyond the buffer, and read_until with a '
+        'delimiter starting 1..3 bytes before the end of the buffered bytes and a size cap around it; a quarter of the sync cases additionally address parents of a live child and use invalid delimiters (model comparison only from there on). '
         'Grid part: every data string up to length 3 (quick: complete to length 2, a fifth of length 3) / 4 (thorough) x chunk sizes {1..len+1, 64} x 3-4 source patterns x every history up '
         'to length 2 (quick, and thorough for length-4 data) / 3 (thorough, data up to length 3) over a fixed op alphabet (sync 18 ops, async 17 ops) incl. delimit/pop; one in 40 grid cases '
         'also goes to the model. non-trivial = some operation returned data; distinct = distinct (reader kind, construction, history)')
@@ -376,15 +378,35 @@ class _Sessions:
         self.cur.finish()
 
 
+def _buffered_hint(r, fallback):
+    """How many bytes the reader has buffered ahead of its cursor - used ONLY to aim generated sizes and delimiters at the
+    buffer border, never compared. Read from the private fields when they exist (exact, also for nested readers); otherwise
+    the public estimate (delivered by the source - returned to the caller), or None."""
+    bl, bp = getattr(r, '_buffer_len', None), getattr(r, '_buffer_pos', None)
+    if isinstance(bl, int) and isinstance(bp, int) and 0 <= bp <= bl:
+        return bl - bp
+    return fallback
+
+
+def _border_until(rnd, cur, chunk, buffered):
+    """One read_until aimed at the end of the buffered bytes: the delimiter is cut out of the data so that it starts 1..3 bytes
+    before that end (after the cursor) and extends beyond it, and the size cap lies around the delimiter start / the border."""
+    p = min(cur.ps)
+    t = rnd.choice([1, 1, 2, 2, 3])
+    if buffered is None or buffered < t or chunk < 2:
+        return None
+    ln = min(chunk, t + rnd.choice([1, 1, 2, 3]))
+    s0 = p + buffered - t
+    d = cur.d[s0:s0 + ln]
+    if len(d) < 2:
+        return None
+    n = max(0, buffered - t + rnd.choice([-2, -1, 0, 1, 1, 2, 2, 3, t, t + 1]))
+    return ('ru', d, rnd.choice([n, n, n, -1, None]), rnd.choice([0, 0, 1]))
+
+
 def _ncases(ctx, quick, thorough):
-    """Random cases for this shard. When the runner is searching for a failing input (after a broken proof / correspondence) it
-    re-runs with tier=thorough at 10x (from quick) or 3x (from thorough) scale; twenty times the quick volume, under a new seed, is
-    what a search gets here - not ten times the thorough volume, which would run for hours."""
-    if not ctx.searching:
-        return ctx.n(quick, thorough)
-    total = quick * 20
-    i, k = ctx.shard
-    return total // k + (1 if i < total % k else 0)
+    """Random cases for this shard (x the runner's scale when it is searching for a failing input under a fresh seed)."""
+    return ctx.n(quick, thorough)
 
 
 # ====================================================================== sync reader
@@ -504,7 +526,9 @@ def _run_sync(env, plan, next_op, sess=None):
     hist, failed, nontriv, spec_on, tags = [], None, False, True, set()
     while failed is None:
         exact = (not spec_on) or stack[-1][1].exact()
-        buffered = (min(src.pos, max(maxlen, 0)) - min(stack[0][1].ps)) if (len(stack) == 1 and spec_on) else None
+        buffered = None
+        if spec_on:
+            buffered = _buffered_hint(stack[-1][0], (min(src.pos, max(maxlen, 0)) - min(stack[0][1].ps)) if len(stack) == 1 else None)
         op = next_op(len(stack) - 1, exact, spec_on, stack[-1][1], buffered)
         if op is None:
             break
@@ -641,6 +665,10 @@ def _sync_chooser(rnd, plan, wild, nest=True):
             if two:
                 state['queue'].append(two[1])
                 return two[0]
+        if spec_on and cur is not None and buffered and rnd.random() < 0.06:
+            one = _border_until(rnd, cur, plan['chunk'], buffered)
+            if one:
+                return one
         op = base(cur if spec_on else None, buffered)
         if wild and depth > 0 and rnd.random() < 0.3:
             return ('up', rnd.randint(1, depth), op)
@@ -683,8 +711,8 @@ def _sync(ctx, BR, DelimiterError):
         ctx.count('sync_maxlen_' + ('exact' if plan['maxlen'] == len(plan['data']) else 'shorter' if plan['maxlen'] < len(plan['data']) else 'truncated_body'))
         ctx.count('sync_ops', len(hist))
     # ---- grid: every short data string x chunk size x source pattern x every short history
-    if ctx.searching and ctx.scale < 10:
-        words = []            # a search started from the thorough tier would only repeat the same grid
+    if ctx.searching and not ctx.quick:
+        words = []            # a search in the thorough tier would only repeat the same grid; in the quick tier it runs the length-3 data in full
     else:
         words = _words(3 if ctx.quick else 4)
     hists3 = list(_histories(SYNC_GRID_OPS, 2 if ctx.quick else 3))
@@ -707,7 +735,7 @@ def _sync(ctx, BR, DelimiterError):
                     j = idx // k
                     if len(h) > L + 1 and j % 7:
                         continue     # histories much longer than the data are mostly reads at EOF: keep a seventh
-                    if ctx.quick and L == 3 and j % 5:
+                    if ctx.quick and L == 3 and j % 5 and not ctx.searching:
                         continue     # quick tier: complete up to length 2, a fifth of length 3
                     if env.hangs >= MAX_HANGS:
                         break
@@ -811,7 +839,9 @@ async def _run_async_body(env, plan, next_op, sess, st):
         sess.op(f'new {chunk} ' + ' '.join(_hx(p) for p in parts), 'ok')
     hist, failed, tags, spec_on = st['hist'], None, st['tags'], True
     while failed is None:
-        buffered = (delivered[0] - min(stack[0][1].ps)) if (len(stack) == 1 and spec_on) else None
+        buffered = None
+        if spec_on:
+            buffered = _buffered_hint(stack[-1][0], (delivered[0] - min(stack[0][1].ps)) if len(stack) == 1 else None)
         op = next_op(len(stack) - 1, stack[-1][1].exact(), stack[-1][3], stack[-1][1], buffered)
         if op is None:
             break
@@ -939,6 +969,10 @@ def _async_chooser(rnd, plan):
             if two:
                 state['queue'].append(two[1])
                 return two[0]
+        if cur is not None and buffered and rnd.random() < 0.06:
+            one = _border_until(rnd, cur, plan['chunk'], buffered)
+            if one:
+                return one
         if k == 'read':
             return ('read', rnd.choice(near if near and rnd.random() < 0.3 else sizes))
         if k == 'peek':
@@ -987,7 +1021,7 @@ def _async(ctx, BR, DelimiterError):
             ctx.count('async_len_' + ('big' if big else 'small'))
             ctx.count('async_src_' + plan['src_mode'])
             ctx.count('async_ops', len(res[1]))
-        if ctx.searching and ctx.scale < 10:
+        if ctx.searching and not ctx.quick:
             words = []
         else:
             words = _words(3 if ctx.quick else 4)
@@ -1011,7 +1045,7 @@ def _async(ctx, BR, DelimiterError):
                         j = idx // k
                         if len(h) > L + 1 and j % 7:
                             continue
-                        if ctx.quick and L == 3 and j % 5:
+                        if ctx.quick and L == 3 and j % 5 and not ctx.searching:
                             continue
                         if stuck[0] >= MAX_HANGS:
                             break
